@@ -91,6 +91,8 @@ pub enum Mode {
     Pending,
     ErrOnce,
     PanicOnce,
+    /// ready; the next `call` panics (the worker dies with the connection's guard on the stack)
+    PanicInCall,
 }
 
 #[derive(Clone, Copy, Debug, PartialEq, Eq, Hash, PartialOrd, Ord)]
@@ -345,7 +347,7 @@ impl<Io: AsRawFd + 'static> Service<Io> for ScriptedSvc {
         let key = (self.slot, self.svc);
         let mode = w.modes.borrow().get(&key).copied().unwrap_or(Mode::Ready);
         let (res, name): (Poll<Result<(), ()>>, &'static str) = match mode {
-            Mode::Ready => (Poll::Ready(Ok(())), "ready"),
+            Mode::Ready | Mode::PanicInCall => (Poll::Ready(Ok(())), "ready"),
             Mode::Pending => {
                 w.ready_wakers.borrow_mut().insert(key, cx.waker().clone());
                 (Poll::Pending, "pending")
@@ -374,6 +376,16 @@ impl<Io: AsRawFd + 'static> Service<Io> for ScriptedSvc {
         let w = world();
         let conn = w.identify(io.as_raw_fd());
         w.rec(Rec::Call { conn, slot: self.slot, svc: self.svc, instance: self.instance });
+        if w.modes.borrow().get(&(self.slot, self.svc)).copied() == Some(Mode::PanicInCall) {
+            w.modes.borrow_mut().insert((self.slot, self.svc), Mode::Ready);
+            w.dying.borrow_mut().insert(self.slot);
+            w.rec(Rec::WorkerDying { slot: self.slot });
+            if let Some(c) = conn {
+                w.rec(Rec::Dropped { conn: c });
+            }
+            drop(w);
+            panic!("injected service panic inside call (worker {} dies) (expected-by-harness)", self.slot);
+        }
         let (tx, rx) = oneshot::channel::<bool>();
         if let Some(c) = conn {
             w.inflight.borrow_mut().insert(c, tx);
